@@ -89,7 +89,7 @@ class Covariance:
 
     def bound(self, tier):
         return ('signal corpus x both centrings x both burst methods; amplitude factors 2^k, k in {-20,-3,1,7,20}; '
-                '(fs, f_range) factors 2^k, k in {-3,-1,1,4}; exact comparison of the tables')
+                '(fs, f_range) factors 2^k, k in {-3,-1,1,4}; exact comparison of the tables').replace('{-20,-3,1,7,20}', '{-40,-30,-20,-3,1,7,20,40}')
 
     def gen(self, tier, seed):
         rng = random.Random(seed + 7)
@@ -97,7 +97,7 @@ class Covariance:
             if c['fek'] == 'nsec':
                 c = dict(c, fek='ncyc5')      # the statement fixes the filter length in cycles
             for centre in ('peak', 'trough'):
-                yield dict(c, centre=centre, ka=rng.choice([-20, -3, 1, 7, 20]), kf=rng.choice([-3, -1, 1, 4]))
+                yield dict(c, centre=centre, ka=rng.choice([-40, -30, -20, -3, 1, 7, 20, 40]), kf=rng.choice([-3, -1, 1, 4]))
 
     def nontrivial(self, c):
         return True
@@ -172,7 +172,11 @@ class Purity:
         sigs2 = np.stack([sig[:600], sig[600:]])
         sigs3 = sigs2.reshape(1, 2, 600)
         gk = dict(kw)
-        shared = dict(sig=sig, kw=kw, df=df, shapes=shapes, samples=samples, sigs2=sigs2, sigs3=sigs3, gk=gk)
+        gk_list = [copy.deepcopy(dict(kw, return_samples=True)) for _ in range(2)]          # per-row / per-epoch option lists
+        gk_list[1]['threshold_kwargs'] = dict(gk_list[1]['threshold_kwargs'], min_n_cycles=3)
+        gk_grid = [[copy.deepcopy(kw) for _ in range(2)]]
+        shared = dict(sig=sig, kw=kw, df=df, shapes=shapes, samples=samples, sigs2=sigs2, sigs3=sigs3, gk=gk,
+                      gk_list=gk_list, gk_grid=gk_grid)
         snap = copy.deepcopy(shared)
 
         def bf_kwargs():
@@ -197,6 +201,10 @@ class Purity:
             'compute_features_2d': lambda: pd.concat(compute_features_2d(sigs2, fs, fr, compute_features_kwargs=gk, axis=0, n_jobs=1), axis=0),
             'compute_features_2d_None': lambda: pd.concat(compute_features_2d(sigs2, fs, fr, compute_features_kwargs=gk, axis=None, n_jobs=1), axis=0),
             'compute_features_3d': lambda: pd.concat(compute_features_3d(sigs3, fs, fr, compute_features_kwargs=gk, axis=(0, 1), n_jobs=1)[0], axis=0),
+            'compute_features_2d_list': lambda: pd.concat(compute_features_2d(sigs2, fs, fr, compute_features_kwargs=gk_list, axis=0, n_jobs=1), axis=0),
+            'compute_features_2d_None_list': lambda: pd.concat(compute_features_2d(sigs2, fs, fr, compute_features_kwargs=gk_list, axis=None, n_jobs=1), axis=0),
+            'compute_features_3d_grid': lambda: pd.concat(compute_features_3d(sigs3, fs, fr, compute_features_kwargs=gk_grid, axis=(0, 1), n_jobs=1)[0], axis=0),
+            'compute_features_3d_axis1_list': lambda: pd.concat(compute_features_3d(sigs3, fs, fr, compute_features_kwargs=gk_list, axis=1, n_jobs=1)[0], axis=0),
         }
         if c['method'] == 'cycles':
             calls['recompute_edges'] = lambda: recompute_edges(df, th)
@@ -228,6 +236,8 @@ class Purity:
         names = sorted(calls)
         first = {}
         seq = [rng.choice(names) for _ in range(c['steps'])]
+        must = [nm for nm in names if nm.endswith('_list') or nm.endswith('_grid')]
+        seq += must + [rng.choice(must)]
         for k, name in enumerate(seq):
             try:
                 res = calls[name]()
